@@ -74,9 +74,16 @@ def check(tier):
         small = c02.shrink_case(exe, c, pred)
         r, _ = c02.run_cases(exe, [small])
         (sc, sp, si, sm, sv) = r[0]
-        bits = int(si.rsplit(",!", 1)[1]) if ",!" in si else 0
+        tail = si.rsplit(",!", 1)[1] if ",!" in si else "0"
+        d_over = tail.startswith("o") or ",!o" in si
+        try:
+            bits = int(tail.lstrip("o"))
+        except ValueError:
+            bits = 0
         d = c02.replay_dict(sc, sp, si, sm, sv)
         d["impurity_bits"] = bits
+        if d_over:
+            d["overload_disagreement"] = "a ,!o<bits> marker: the convenience overloads (1: Render(content, value, stream); 2: Render<Stream>(content, length, value); 4: Render<Stream>(content, value); 8: JSON::Parse(content)) on NUL-terminated copies differ from the primary calls"
         d["meaning"] = "1: render through a fresh cache differs from the fresh render; 2: cache reused with another value differs from that value's fresh render; 4: render into a pre-filled stream disturbed the prefix or differs; 8: the value changed; 16: the template text changed; 32: render through a copy of the cache (copy-constructed / copy-assigned), or through the original after it was copied, differs; 64: render through the moved cache differs"
         rep.violation(d)
         found += 1
